@@ -62,6 +62,32 @@ def r14_1(ctx: Ctx) -> None:
                 ctx.violation("R14.1", fi.short, "context not cleared on exception", fi.where(sc),
                               f"{fi.short}: an exception after set_document_context leaves the colour context of this document "
                               "behind (no try/finally); the next encode in the process sees it")
+    # context managers that set the context: the yield must be protected by a finally that clears it
+    for fi in pm.iter_funcs():
+        if not any(d.endswith("contextmanager") for d in fi.decorators):
+            continue
+        t = unparse(fi.node)
+        if "_document_colors" not in t and "set_document_context" not in t and "_current_document_colors" not in t:
+            continue
+        ys = [y for y in walk_no_nested(fi.node) if isinstance(y, (ast.Yield, ast.YieldFrom))]
+        for y in ys:
+            n += 1
+            prot = False
+            p = getattr(y, "_parent", None)
+            while p is not None and p is not fi.node:
+                if isinstance(p, ast.Try) and p.finalbody and any(x is y for st in p.body for x in ast.walk(st)):
+                    ft = " ".join(unparse(st) for st in p.finalbody)
+                    if "clear_document_context" in ft or ".set(None)" in ft or ".reset(" in ft or "= None" in ft:
+                        prot = True
+                p = getattr(p, "_parent", None)
+            conditional = [unparse(a.test) for a in _anc_nodes(y, fi.node) if isinstance(a, ast.If)]
+            ctx.instance("R14.1", fi.where(y), f"{fi.short}: context manager yield protected by a clearing finally: {prot}; conditional on {conditional}")
+            if not prot:
+                ctx.violation("R14.1", fi.short, "context manager without finally", fi.where(y),
+                              f"{fi.short}: the colour context set by this context manager is not cleared when the body raises (yield outside try/finally)")
+            if conditional:
+                ctx.violation("R14.1", fi.short, "context manager keeps an outer context " + str(conditional), fi.where(y),
+                              f"{fi.short}: under `{conditional[0]}` the document is encoded with a colour context that was already active (stale palette of another document)")
     if n == 0:
         # no explicit context any more is fine only if nothing reads one
         if pm.has_func("ColorService.set_document_context"):
@@ -69,6 +95,13 @@ def r14_1(ctx: Ctx) -> None:
             if callers:
                 raise AnalysisError("set_document_context call sites exist but none is in reachable code")
     ctx.floor("R14.1", 1)
+
+
+def _anc_nodes(n, stop):
+    p = getattr(n, "_parent", None)
+    while p is not None and p is not stop:
+        yield p
+        p = getattr(p, "_parent", None)
 
 
 def _dead_guard(ctx: Ctx, st) -> str | None:
